@@ -95,6 +95,9 @@ def conv(base, v):
         if isinstance(v, float):
             if v != v or v in (math.inf, -math.inf):
                 raise Skip("float-to-int-undefined")
+            if abs(v) > 9007199254740992.0:
+                # the definition computed in floating point what the kernel computes in integers
+                raise Skip("float-arithmetic-inexact")
             v = math.trunc(v)
             lo, hi = INT_RANGE[base]
             if v < lo or v > hi:
@@ -122,6 +125,16 @@ def conv(base, v):
     return float(v)
 
 
+class CFloat(float):
+    """Result of float(...) in a definition.  The repository reads float(x) as a C cast (dev/generate-cuda.py), and
+    several definitions pass the result to range(); __index__ gives the C truncation there.  Arithmetic on it yields
+    plain floats."""
+    __slots__ = ()
+
+    def __index__(self):
+        return int(self)
+
+
 def _float(x):
     if isinstance(x, int) and not isinstance(x, bool):
         try:
@@ -130,8 +143,8 @@ def _float(x):
             raise Skip("int-to-float-inexact")
         if int(f) != x:
             raise Skip("int-to-float-inexact")
-        return f
-    return float(x)
+        return CFloat(f)
+    return CFloat(x)
 
 
 def _int(x):
@@ -266,7 +279,7 @@ class LazyIn(object):
 
     def __getitem__(self, i):
         if type(i) is not int:
-            if isinstance(i, float):
+            if isinstance(i, float) and not isinstance(i, CFloat):
                 raise TypeError("float index")
             i = int(i)
         w = self.written
@@ -321,7 +334,7 @@ class Out(object):
 
     def __setitem__(self, i, v):
         if type(i) is not int:
-            if isinstance(i, float):
+            if isinstance(i, float) and not isinstance(i, CFloat):
                 raise TypeError("float index")
             i = int(i)
         if i < 0 or i >= self.maxext:
